@@ -209,7 +209,12 @@ def outdated_copy(target: str, info, sources):
 def neighbour_files(destdir: str, info, iv: bool, rng):
     """files next to the target that must survive: sibling dependency, a directory whose *name* extends the target's"""
     dn = dir_name(info, iv)
-    return [
+    # directories a copy routine might use for staging / backup next to the target (they are somebody else's files: they
+    # survive and nothing of them reaches the target), plus any suffix-like literal the source has gained (§14.4)
+    sfx = [".tmp", ".bak", ".old", "~", ".new", ".part", "-tmp", ".lock"] + [w for w in gen.EXTRA if 0 < len(w) <= 12 and "/" not in w and "\x00" not in w]
+    staged = rng.sample(sfx, min(3, len(sfx)))
+    return [(destdir + "/" + dn + x + "/left/over.js", content_of("staging" + x, rng)) for x in staged] + [
+        (destdir + "/." + dn + "/hidden.js", content_of("hidden", rng)),
         (destdir + "/other-1.0/keep.js", content_of("keep", rng)),
         (destdir + "/" + dn + "x/keep.js", content_of("keepx", rng)),
         (destdir + "/" + dn[:-1] + "/keep.js", content_of("keepshort", rng)) if len(dn) > 1 else (destdir + "/k", "k"),
